@@ -82,9 +82,8 @@ func (s *Session) puback(p *packets.PubackPacket)
 func (s *Session) doResend()
   flag allocates
   flag paths=split
-  flag frame=unchecked
   requires s != nil && s.broker != nil && s.info != nil
-  modifies gWroteID, gWrotePending, gWroteQueuePos
+  modifies gWroteID, gWrotePending, gWroteQueuePos, allof("ghostf:github.com/megaease/easegress/pkg/object/mqttproxy.Session.qbase"), allof("object/mqttproxy.Session.pendingQueue#arr"), allof("object/mqttproxy.Session.pendingQueue#cap"), allof("object/mqttproxy.Session.pendingQueue#len")
   ensures only-unacknowledged-messages-are-resent: gWroteID >= 0 ==> gWrotePending
   ensures the-oldest-unacknowledged-one-first: gWroteID >= 0 ==> 0 <= gWroteQueuePos && gWroteQueuePos < len(old(s.pendingQueue)) && old(s.pendingQueue)[gWroteQueuePos] == gWroteID && (forall k int :: 0 <= k && k < gWroteQueuePos ==> !(old(s.pendingQueue)[k] in old(s.pending)))
   ghost at entry: gWroteID := -1
@@ -212,7 +211,7 @@ ghost var hcSubscribed int  // topic list handed to TopicManager.subscribe (0: n
 ghost var hcWrote bool      // CONNACK written
 
 func (b *Broker) handleConn(conn net.Conn)
-  flag frame=unchecked
+  modifies allof("ghost:github.com/megaease/easegress/pkg/object/mqttproxy.closedSess"), allof("ghost:github.com/megaease/easegress/pkg/object/mqttproxy.hcCid"), allof("ghost:github.com/megaease/easegress/pkg/object/mqttproxy.hcClient"), allof("ghost:github.com/megaease/easegress/pkg/object/mqttproxy.hcNTopics"), allof("ghost:github.com/megaease/easegress/pkg/object/mqttproxy.hcRefused"), allof("ghost:github.com/megaease/easegress/pkg/object/mqttproxy.hcRegisteredAs"), allof("ghost:github.com/megaease/easegress/pkg/object/mqttproxy.hcSubscribed"), allof("ghost:github.com/megaease/easegress/pkg/object/mqttproxy.hcSubscribedFor"), allof("ghost:github.com/megaease/easegress/pkg/object/mqttproxy.hcTopics"), allof("ghost:github.com/megaease/easegress/pkg/object/mqttproxy.hcValid"), allof("ghost:github.com/megaease/easegress/pkg/object/mqttproxy.hcWrote"), allof("ghost:github.com/megaease/easegress/pkg/object/mqttproxy.sessOf"), allof("github.com/eclipse/paho.mqtt.golang/packets.ConnackPacket.ReturnCode"), allof("map<string,*object/mqttproxy.Client>#card"), allof("map<string,*object/mqttproxy.Client>#val"), allof("map<string,*object/mqttproxy.Client>#dom")
   requires b != nil && b.spec != nil && b.sessMgr != nil && b.topicMgr != nil && conn != nil
   ensures an-admitted-connection-is-registered-under-its-id: hcValid && !hcRefused ==> hcRegisteredAs == hcClient
   ensures a-resumed-sessions-subscriptions-are-registered-again: hcValid && !hcRefused && hcWrote && hcNTopics > 0 ==> hcSubscribed == hcTopics && hcSubscribedFor == hcCid
@@ -240,7 +239,7 @@ ghost var hcSubscribedFor string
 // ---- C13 / C09: the MQTT limiters are always built over a positive refresh period ----
 func newLimiter(spec *RateLimit) (l *Limiter)
   flag allocates
-  flag frame=unchecked
+  modifies allof("ghost:github.com/megaease/easegress/pkg/util/ratelimiter.clock")
   ensures l != nil
 
 // ---- C14 / C15: what a SUBSCRIBE / UNSUBSCRIBE packet does to the routing table ----
@@ -289,7 +288,7 @@ func (s *Session) unsubscribe(topics []string) (err error)
 
 func processSubscribe(c *Client, p packets.ControlPacket)
   flag allocates
-  flag frame=unchecked
+  modifies allof("ghost:github.com/megaease/easegress/pkg/object/mqttproxy.psCid"), allof("ghost:github.com/megaease/easegress/pkg/object/mqttproxy.psQoss"), allof("ghost:github.com/megaease/easegress/pkg/object/mqttproxy.psRecorded"), allof("ghost:github.com/megaease/easegress/pkg/object/mqttproxy.psRouted"), allof("ghost:github.com/megaease/easegress/pkg/object/mqttproxy.psSessQoss"), allof("ghost:github.com/megaease/easegress/pkg/object/mqttproxy.psSessTopics"), allof("ghost:github.com/megaease/easegress/pkg/object/mqttproxy.psTopics"), allof("ghostf:github.com/megaease/easegress/pkg/object/mqttproxy.Session.storedDom"), allof("ghostf:github.com/megaease/easegress/pkg/object/mqttproxy.Session.storedVal"), allof("map<string,int>#card"), allof("map<string,int>#dom"), allof("map<string,int>#val")
   requires c != nil && c.broker != nil && c.broker.topicMgr != nil && c.session != nil && c.session.info != nil && c.session.info.Topics != nil
   requires typeIs(p, "*packets.SubscribePacket") && ifaceVal(p) != 0
   requires a-decoded-SUBSCRIBE-has-one-qos-per-filter: len(ptr(ifaceVal(p), "*packets.SubscribePacket").Qoss) == len(ptr(ifaceVal(p), "*packets.SubscribePacket").Topics)
@@ -308,7 +307,7 @@ func processSubscribe(c *Client, p packets.ControlPacket)
 
 func processUnsubscribe(c *Client, p packets.ControlPacket)
   flag allocates
-  flag frame=unchecked
+  modifies allof("ghost:github.com/megaease/easegress/pkg/object/mqttproxy.psCid"), allof("ghost:github.com/megaease/easegress/pkg/object/mqttproxy.psRecorded"), allof("ghost:github.com/megaease/easegress/pkg/object/mqttproxy.psRouted"), allof("ghost:github.com/megaease/easegress/pkg/object/mqttproxy.psSessTopics"), allof("ghost:github.com/megaease/easegress/pkg/object/mqttproxy.psTopics"), allof("ghost:github.com/megaease/easegress/pkg/object/mqttproxy.unsubCount"), allof("ghostf:github.com/megaease/easegress/pkg/object/mqttproxy.Session.storedDom"), allof("ghostf:github.com/megaease/easegress/pkg/object/mqttproxy.Session.storedVal"), allof("map<string,int>#card"), allof("map<string,int>#dom"), allof("map<string,int>#val")
   requires c != nil && c.broker != nil && c.broker.topicMgr != nil && c.session != nil && c.session.info != nil
   requires typeIs(p, "*packets.UnsubscribePacket") && ifaceVal(p) != 0
   ensures every-named-filter-is-unrouted-for-this-client: psRouted && psTopics == ref(ptr(ifaceVal(p), "*packets.UnsubscribePacket").Topics) && psCid == c.info.cid
@@ -329,7 +328,7 @@ ghost var paID int
 ghost var paObj int
 func processPublish(c *Client, packet packets.ControlPacket)
   flag allocates
-  flag frame=unchecked
+  modifies allof("ghost:github.com/megaease/easegress/pkg/object/mqttproxy.paAcked"), allof("ghost:github.com/megaease/easegress/pkg/object/mqttproxy.paID"), allof("ghost:github.com/megaease/easegress/pkg/object/mqttproxy.paObj")
   requires c != nil && typeIs(packet, "*packets.PublishPacket") && ifaceVal(packet) != 0
   ensures a-qos1-publish-is-acknowledged-with-its-own-packet-id: ptr(ifaceVal(packet), "*packets.PublishPacket").Qos == 1 ==> paAcked && paID == ptr(ifaceVal(packet), "*packets.PublishPacket").MessageID
   ensures the-ack-is-a-packet-of-its-own: ptr(ifaceVal(packet), "*packets.PublishPacket").Qos == 1 ==> paObj != 0 && fresh(ptr(paObj, "*packets.PubackPacket"))
@@ -355,7 +354,6 @@ iface (s storage) put(key string, value string) (err error)
   pure
 func (sm *SessionManager) doStore()
   flag allocates
-  flag frame=unchecked
   requires sm != nil && sm.store != nil
   modifies gStoreReceived, gStorePuts, gStoreFaithful
   ensures every-queued-session-copy-is-written-under-its-clients-key: gStorePuts - old(gStorePuts) == gStoreReceived - old(gStoreReceived) && gStoreFaithful
